@@ -79,8 +79,16 @@ func ruleR26(c *Ctx) {
 		if t == nil {
 			return false
 		}
-		if _, isTP := types.Unalias(t).(*types.TypeParam); isTP {
-			return true
+		if tp, isTP := types.Unalias(t).(*types.TypeParam); isTP {
+			// a key type parameter can be a byte slice only if its type set has one
+			for _, term := range typeSetTerms(tp) {
+				if sl, ok := term.Underlying().(*types.Slice); ok {
+					if b, ok := sl.Elem().Underlying().(*types.Basic); ok && (b.Kind() == types.Byte || b.Kind() == types.Uint8) {
+						return true
+					}
+				}
+			}
+			return false
 		}
 		sl, ok := t.Underlying().(*types.Slice)
 		if !ok {
@@ -283,6 +291,180 @@ func ruleR26(c *Ctx) {
 			c.r.undecided("R26", lu.Name+" call sites", m.pos(lu.Lit.Pos()), "closure with key sinks is never called directly", props...)
 		}
 	}
+	// ---- escaping closures (returned sequences, predicates handed to a scan) are evaluated after
+	// the API call has returned: a slice they capture must be library-owned memory
+	nEsc := 0
+	isTreeMethod := func(u *FuncUnit) bool {
+		for _, tk := range m.Trees {
+			for _, mu := range tk.Methods {
+				if mu == u {
+					return true
+				}
+			}
+		}
+		return false
+	}
+	paramIndex := func(u *FuncUnit, v *types.Var) int {
+		if u.Decl == nil || u.Lit != nil {
+			return -1
+		}
+		i := 0
+		for _, f := range u.Decl.Type.Params.List {
+			for _, nm := range f.Names {
+				if info.Defs[nm] == v {
+					return i
+				}
+				i++
+			}
+		}
+		return -1
+	}
+	for _, u := range units {
+		if u.Lit != nil {
+			continue // literals are visited through the function that declares them
+		}
+		fl := c.e.flow(u)
+		props := []string{"C13"}
+		if strings.Contains(strings.ToLower(u.Name), "collat") {
+			props = append(props, "C08")
+		}
+		fl.walk(func(n ast.Node, fs *FactSet, stmt ast.Node, b *cfg.Block) {
+			lit, ok := n.(*ast.FuncLit)
+			if !ok {
+				return
+			}
+			lu := m.LitUnit[lit]
+			if lu == nil {
+				return
+			}
+			// a closure bound to a variable that is only ever called stays inside the call
+			if as, ok := stmt.(*ast.AssignStmt); ok && len(as.Lhs) == 1 {
+				if bv := identVar(info, as.Lhs[0]); bv != nil && m.LitOfVar[bv] == lu {
+					onlyCalled := true
+					ast.Inspect(u.Body, func(x ast.Node) bool {
+						switch y := x.(type) {
+						case *ast.CallExpr:
+							for _, a := range y.Args {
+								if identVar(info, a) == bv {
+									onlyCalled = false
+								}
+							}
+						case *ast.ReturnStmt:
+							for _, r := range y.Results {
+								if identVar(info, r) == bv {
+									onlyCalled = false
+								}
+							}
+						}
+						return true
+					})
+					if onlyCalled {
+						return
+					}
+				}
+			}
+			// captured suspect slices
+			seen := map[*types.Var]bool{}
+			ast.Inspect(lit.Body, func(x ast.Node) bool {
+				id, ok := x.(*ast.Ident)
+				if !ok {
+					return true
+				}
+				v, _ := info.ObjectOf(id).(*types.Var)
+				if v == nil || seen[v] || v.IsField() || (v.Pos() >= lit.Pos() && v.Pos() <= lit.End()) {
+					return true
+				}
+				if !probe[v] || !isByteSlice(v.Type()) {
+					return true
+				}
+				seen[v] = true
+				nEsc++
+				key := fmt.Sprintf("%s closure evaluated after the call captures %s", u.Name, v.Name())
+				if fs.isFresh(v) {
+					c.r.ok("R26", key, m.pos(lit.Pos()), v.Name()+" refers to a copy made by the library", props...)
+					return true
+				}
+				// a helper's parameter (or a reslice of one): the obligation moves to its call sites
+				src := v
+				{
+					// every assignment to v is a reslice (or copy) of one and the same variable?
+					var from *types.Var
+					consistent := true
+					ast.Inspect(u.Body, func(z ast.Node) bool {
+						as, ok := z.(*ast.AssignStmt)
+						if !ok || len(as.Lhs) != len(as.Rhs) {
+							return true
+						}
+						for i, l := range as.Lhs {
+							if identVar(info, l) != v {
+								continue
+							}
+							e := ast.Unparen(as.Rhs[i])
+							for {
+								if se, ok := e.(*ast.SliceExpr); ok {
+									e = ast.Unparen(se.X)
+									continue
+								}
+								break
+							}
+							pv := identVar(info, e)
+							if pv == nil || (from != nil && from != pv) {
+								consistent = false
+							}
+							from = pv
+						}
+						return true
+					})
+					if consistent && from != nil {
+						src = from
+					}
+				}
+				pi := paramIndex(u, src)
+				if pi >= 0 && !isTreeMethod(u) {
+					okAll, nCalls, badAt := true, 0, ""
+					for _, cu := range units {
+						cfl := c.e.flow(cu)
+						cfl.walk(func(cn ast.Node, cfs *FactSet, _ ast.Node, _ *cfg.Block) {
+							call, ok := cn.(*ast.CallExpr)
+							if !ok || pi >= len(call.Args) {
+								return
+							}
+							if f := m.staticCallee(call); f == nil || f != u.Obj {
+								return
+							}
+							// only call sites inside the byte-keyed kinds matter
+							if !strings.Contains(cu.Name, ".") {
+								return
+							}
+							isByteKind := false
+							for _, tk := range c.byteKeyKinds() {
+								if cu.Recv == tk.Name {
+									isByteKind = true
+								}
+							}
+							if !isByteKind {
+								return
+							}
+							nCalls++
+							if !cfl.freshExpr(call.Args[pi], cfs, 0) {
+								okAll = false
+								badAt = cu.Name + " at " + m.pos(call.Pos())
+							}
+						})
+					}
+					if okAll {
+						c.r.ok("R26", key, m.pos(lit.Pos()), fmt.Sprintf("parameter %s: every one of the %d call sites in byte-keyed trees passes a copy made by the library", src.Name(), nCalls), props...)
+					} else {
+						c.r.bad("R26", key, m.pos(lit.Pos()), fmt.Sprintf("the closure is evaluated lazily and reads %s, which %s passes as a slice that may still be the caller's key buffer: reusing the buffer after the call changes what the sequence yields", v.Name(), badAt), props...)
+					}
+					return true
+				}
+				c.r.bad("R26", key, m.pos(lit.Pos()), fmt.Sprintf("the closure is evaluated after the call has returned and reads %s, which may still be the caller's key slice: reusing the buffer afterwards changes what the returned sequence yields", v.Name()), props...)
+				return true
+			})
+		})
+	}
+	c.r.note("R26: %d slices captured by closures that outlive the call", nEsc)
 	c.r.note("R26: %d write sinks and %d retention sinks on slices that may alias a key argument, in %d functions reachable from byte-keyed entry points", nW, nR, len(units))
 	c.r.floor("R26", 5, "alias sinks", "C13")
 }
